@@ -128,6 +128,7 @@ def strategy(tier):
         # trait modes: after the first assignment a new exact-type offer is registered and the SAME object is assigned
         # again; the trait must then hold what adapt() gives now
         "reassign": st.booleans(),
+        "lazy_registers": st.booleans(),
     })
 
 
@@ -219,6 +220,10 @@ def _run(case, ctx):
                 module.LazyP.register(src)
                 module.factory = factory
                 module.Target = Tt
+                if case.get("lazy_registers"):
+                    # the module registers an offer of its own while it is being imported (a declining one between two
+                    # fresh classes: it changes nothing about which chains exist)
+                    mgr.register_factory(lambda adaptee: None, type("LazyA", (object,), {}), type("LazyB", (object,), {}))
             LAZY[lazy_name] = fill
             mgr.register_offer(AdaptationOffer(factory=lazy_name + ".factory", from_protocol=lazy_name + ".LazyP",
                                                to_protocol=lazy_name + ":Target"))
